@@ -13,6 +13,7 @@ import (
 const (
 	tokenADD = token.ADD
 	tokenLSS = token.LSS
+	tokenXOR = token.XOR
 )
 
 type scheduler struct{}
